@@ -785,5 +785,10 @@ def run_blocks(P, beh: List[dict], kind: int = 0) -> List[dict]:
         ev.append(probe())
         level(0, 0)
 
-    contextvars.copy_context().run(body)
+    try:
+        contextvars.copy_context().run(body)
+    finally:
+        if other[0] is not None:
+            other[0].do("stop")
+            other[0].t.join(30)
     return ev
